@@ -475,14 +475,27 @@ def connect_monitor(case, out):
             if r in overlapped:
                 return K_LOST, "connect request %d on a pipe was overwritten by a second uv_pipe_connect and never completes" % r
             return None, "request %d (submitted with 0) never completed" % r
-    # status against what the harness arranged: only without injected answers and for the first connect
-    first = ops.split()
-    if not script and first and first[0] in CON_EXPECT and 0 in sub and sub[0] == 0 and cbs.get(0):
-        j = first.index("R") if "R" in first else len(first)
-        if "C" not in first[:j] and all(o == first[0] or o == "R" for o in first[:j][:1]) and len(first[:j]) == 1:
-            want = CON_EXPECT[first[0]]
-            if cbs[0][0] != want:
-                return None, "connect %s completed with status %d, expected %d" % (first[0], cbs[0][0], want)
+    # status against what the harness arranged (no injected answers, callbacks do nothing)
+    top = ops.split()
+    if not script and not behs.replace("|", "").strip() and top:
+        if top[0] in CON_EXPECT and sub.get(0) == 0 and cbs.get(0) and len(top) > 1 and top[1] == "R":
+            if cbs[0][0] != CON_EXPECT[top[0]]:
+                return None, "connect %s completed with status %d, expected %d" % (top[0], cbs[0][0], CON_EXPECT[top[0]])
+        # pipes: a connect to a missing / over-long / empty / non-socket path fails in the call itself,
+        # so the first loop iteration after it must deliver that error
+        fail = {"Pm": -2, "Po": -2, "Pe": -22, "Pn": -111, "Q0m": -2, "Q0o": -2, "Q0n": -111}
+        rid, closing = 0, False
+        for j, o in enumerate(top):
+            if o == "C":
+                closing = True
+            if o[0] not in "TPQB" or o == "B" or closing:
+                continue
+            r, rid = rid, rid + 1
+            nxt = top[j + 1] if j + 1 < len(top) else ""
+            if o in fail and nxt == "R" and sub.get(r) == 0 and r not in overlapped and cbs.get(r):
+                if cbs[r][0] != fail[o]:
+                    return None, "uv_pipe_connect %s (request %d) completed with status %d, expected %d" \
+                        % (o, r, cbs[r][0], fail[o])
     return None
 
 
